@@ -514,6 +514,10 @@ async fn run_e2e(sizes: &[usize], presences: usize, lines: &mut Vec<String>) -> 
     let n = sizes.len();
     let mut entries: Vec<bs::ResponseType> = vec![];
     let datas: Vec<Vec<u8>> = (0..n).map(|i| block_data(i + 1, sizes[i])).collect();
+    // presences beyond one per block go first (send_response puts them all into one message)
+    for i in n..presences {
+        entries.push(bs::ResponseType::Presence { cid: fake_cid(1_000_000 + i), presence: bs::BlockPresenceType::Have });
+    }
     for i in 0..n {
         if i < presences {
             entries.push(bs::ResponseType::Presence { cid: fake_cid(1_000_000 + i), presence: bs::BlockPresenceType::Have });
@@ -586,10 +590,11 @@ async fn run_e2e(sizes: &[usize], presences: usize, lines: &mut Vec<String>) -> 
     }
     match sent {
         Ok(()) if clean => lines.push(jline(json!({"e": "done"}))),
-        // an error of the writer ends the response early; the property then has nothing to
-        // say about the unsent rest, the messages seen so far were still judged
-        other => lines.push(jline(json!({"e": "reset", "kind": "e2e-aborted", "B": 0, "M": 0, "sizes": [],
-                                         "why": format!("{other:?} clean={clean}")}))),
+        // the in-memory transport never fails on its own: an error of send_response (other than
+        // the write timeout handled above) comes from what the library itself tried to write,
+        // e.g. a message the substream refuses as over the limit; no action of the trace spec
+        // explains it
+        other => lines.push(jline(json!({"e": "abort", "why": format!("{other:?} clean={clean}")}))),
     }
     Ok(true)
 }
@@ -696,6 +701,19 @@ fn main() {
     for e in args.get("e2e-file").map(read_jsonl).unwrap_or_default() {
         let sizes: Vec<usize> = e["sizes"].as_array().unwrap().iter().map(|x| x.as_u64().unwrap() as usize).collect();
         e2e.push((sizes, e["presences"].as_u64().unwrap_or(0) as usize));
+    }
+    // presence message at / over the message limit next to blocks (a presence of a CIDv1
+    // sha2-256 encodes to 40 bytes, the message to 40 * n + 2)
+    for t in 0..args.u64("e2e-presence", 0) {
+        let per = 40;
+        let under = (bs::MAX_MESSAGE_SIZE - 2) / per;
+        let (p, sizes): (usize, Vec<usize>) = match t {
+            0 => (130_000, vec![1024]),
+            1 => (under, vec![1024, 7]),
+            2 => (under + 1, vec![1024, bs::MAX_BATCH_SIZE, 7]),
+            _ => (under + 1 + (t as usize * 7919) % 50_000, vec![9; (t as usize % 5) + 1]),
+        };
+        e2e.push((sizes, p));
     }
     // many small blocks: payload well inside one batch, encoding overhead dominates
     for t in 0..args.u64("e2e-tiny", 0) {
